@@ -187,6 +187,16 @@ def run(P, R, tier):
                 c_r = cone(du, v.right, du.stmt_of(st), interproc=False)
                 lab_l = lp.label_var in {d.var for d in c_l.defs} or lp.label_var in {n.id for n in c_l.nodes if isinstance(n, ast.Name)}
                 lab_r = lp.label_var in {d.var for d in c_r.defs} or lp.label_var in {n.id for n in c_r.nodes if isinstance(n, ast.Name)}
+                # ... or both sides are entries, at this loop's position, of sequences that are positional in this same walk
+                def _by_pos(cn):
+                    for x_ in cn.nodes:
+                        if isinstance(x_, ast.Subscript) and isinstance(x_.value, ast.Name) and x_.value.id in conts and isinstance(x_.slice, ast.Name) and lp.pos_var and x_.slice.id == lp.pos_var:
+                            cc_ = conts[x_.value.id]
+                            if cc_[0] == lp.coll and cc_[3].kind == lp.kind and cc_[2] == "list":
+                                return True
+                    return False
+                lab_l = lab_l or _by_pos(c_l)
+                lab_r = lab_r or _by_pos(c_r)
                 if f.value_params[0] in c_l.params | c_r.params:
                     found += 1
                     R.check(lab_l and lab_r, "IDX.pair", f.key, src(st)[:70], "rows and mean selected by the same class", "centred block does not pair the rows of a class with that class's mean", st.lineno)
@@ -206,6 +216,16 @@ def run(P, R, tier):
                 else:
                     sc = cone(du, first, du.stmt_of(n_), interproc=False)
                     eq = any(isinstance(x, ast.Compare) and isinstance(x.ops[0], ast.Eq) for x in sc.nodes)
+                    if not eq and isinstance(first, ast.Name):
+                        # a comprehension variable that walks a per-class sequence of index sets
+                        for g_ in [g2 for c2 in ast.walk(f.node) if isinstance(c2, (ast.ListComp, ast.GeneratorExp, ast.DictComp, ast.SetComp)) for g2 in c2.generators]:
+                            if isinstance(g_.target, ast.Name) and g_.target.id == first.id and isinstance(g_.iter, ast.Name) and g_.iter.id in conts and isinstance(conts[g_.iter.id][1], (ast.ListComp, ast.GeneratorExp)):
+                                elt_ = conts[g_.iter.id][1].elt
+                                eq = any(isinstance(x, ast.Compare) and isinstance(x.ops[0], ast.Eq) and any(isinstance(y, ast.Name) and y.id == conts[g_.iter.id][3].label_var for y in ast.walk(x)) for x in ast.walk(elt_))
+                    if not eq and isinstance(first, ast.Subscript) and isinstance(first.value, ast.Name) and first.value.id in conts and isinstance(conts[first.value.id][1], (ast.ListComp, ast.GeneratorExp)):
+                        # an entry of a per-class sequence of index sets: decided on the expression that builds one entry
+                        elt_ = conts[first.value.id][1].elt
+                        eq = any(isinstance(x, ast.Compare) and isinstance(x.ops[0], ast.Eq) and any(isinstance(y, ast.Name) and y.id == conts[first.value.id][3].label_var for y in ast.walk(x)) for x in ast.walk(elt_))
                     if not eq:
                         from ..engines import group as _grp
                         g_ = _grp.sort_split(du, first, du.stmt_of(n_), [f.value_params[1]])
